@@ -3,6 +3,7 @@ package main
 import (
 	"bufio"
 	"encoding/json"
+	"flag"
 	"fmt"
 	"os"
 	"sort"
@@ -199,6 +200,46 @@ func init() {
 			}
 			emit(runSeq(ops))
 		}
+	}
+
+	// demonstration for the recorded finding "Range / Length are not atomic snapshots": a writer keeps the invariant
+	// "key k2 is live whenever key k1 is not" (Store k2; Delete k1; Store k1; Delete k2; ...), so every state the map
+	// is ever in has at least one live key; a concurrent Range that visits nothing (or Length 0) saw no such state
+	cmds["c12-snapshot"] = func(args []string) {
+		fs := flag.NewFlagSet("c12-snapshot", flag.ExitOnError)
+		rounds := fs.Int("rounds", 2000000, "writer rounds")
+		fs.Parse(args)
+		m := &ds.ValueMap{}
+		m.Store("k1", ds.NewIntVal(1))
+		var stop int32
+		var emptyRange, zeroLen, ranges int64
+		var wg sync.WaitGroup
+		for i := 0; i < 4; i++ {
+			wg.Add(1)
+			go func() {
+				defer wg.Done()
+				for atomic.LoadInt32(&stop) == 0 {
+					n := 0
+					m.Range(func(string, *ds.VMValue) bool { n++; return true })
+					atomic.AddInt64(&ranges, 1)
+					if n == 0 {
+						atomic.AddInt64(&emptyRange, 1)
+					}
+					if m.Length() == 0 {
+						atomic.AddInt64(&zeroLen, 1)
+					}
+				}
+			}()
+		}
+		for i := 0; i < *rounds && atomic.LoadInt64(&emptyRange)+atomic.LoadInt64(&zeroLen) == 0; i++ {
+			m.Store("k2", ds.NewIntVal(2))
+			m.Delete("k1")
+			m.Store("k1", ds.NewIntVal(1))
+			m.Delete("k2")
+		}
+		atomic.StoreInt32(&stop, 1)
+		wg.Wait()
+		emit(map[string]any{"ranges": ranges, "empty_range": emptyRange, "zero_length": zeroLen})
 	}
 
 	// concurrent histories: G goroutines hammer one map; each op records invocation and
